@@ -19,7 +19,7 @@ LEVEL = "model_checking"
 RULE = ("E2: all schedules with <= K deviations from the default (deliver oldest / next app step / next timer) over the menu "
         "drop, duplicate, reorder, delay, early app step, server reply mode (piggyback/separate CON/separate NON/silent), "
         "forged responses (token+-1, sniffed token from other IP/port, replay of a retired response), RST, ICMP error, "
-        "sendmsg OSError, shutdown; distinct = distinct schedule; states = distinct world digests at choice points")
+        "sendmsg OSError, shutdown (also with a request submitted while it is under way), withdrawal of a request by the application (at once, held back, in flight); distinct = distinct schedule; states = distinct world digests at choice points")
 ASSUMPTIONS = [
     "liveness is asserted as event => completion (RFC 7252 gives a NON or already-ACKed request no time-out)",
     "non-observe requests only (observe token life cycle is C07)",
